@@ -508,8 +508,8 @@ def check_C16(tier, seed, replay=None):
     # Pool.key_eqb vs the real storage.SelectorPool: which pairs of requests get one shared selector
     corr = _corr_multi(corr, _corr_generic("poolcases", "C16", "Pool.key_eqb vs the sharing decisions of the real storage.SelectorPool on pairs of "
                        "requests (one field changed, fields outside the key, numbers whose digits are cut differently)", 100, 1000, shards_quick=4, shards_thorough=8))
-    return ref_family_check("C16", tier, seed, [("hints", "", 1500), ("hints", "range", 500), ("hints", "func", 500), ("hints", "pairs", 1000), ("hints", "subpairs", 800)],
-                            [("hints", "", 30000), ("hints", "range", 10000), ("hints", "func", 10000), ("hints", "deep", 10000), ("hints", "pairs", 40000), ("hints", "subpairs", 20000)], corr=corr)
+    return ref_family_check("C16", tier, seed, [("hints", "", 1500), ("hints", "range", 500), ("hints", "func", 500), ("hints", "pairs", 1000), ("hints", "subpairs", 800), ("hints", "agg", 600)],
+                            [("hints", "", 30000), ("hints", "range", 10000), ("hints", "func", 10000), ("hints", "deep", 10000), ("hints", "pairs", 40000), ("hints", "subpairs", 20000), ("hints", "agg", 10000)], corr=corr)
 
 
 def check_C09(tier, seed, replay=None):
@@ -547,8 +547,8 @@ def check_C11(tier, seed, replay=None):
 
 def check_C19(tier, seed, replay=None):
     return ref_family_check("C19", tier, seed,
-                            [("wf", "", 3000), ("wf", "bin", 1500), ("wf", "func", 1000), ("wf", "hist", 400)],
-                            [("wf", "", 60000), ("wf", "bin", 30000), ("wf", "func", 20000), ("wf", "deep", 20000), ("wf", "hist", 8000)],
+                            [("wf", "", 3000), ("wf", "bin", 1500), ("wf", "func", 1000), ("wf", "hist", 400), ("wf", "upper", 600)],
+                            [("wf", "", 60000), ("wf", "bin", 30000), ("wf", "func", 20000), ("wf", "deep", 20000), ("wf", "hist", 8000), ("wf", "upper", 10000)],
                             corr=corr_core("C19", ("sel",)))
 
 
@@ -569,7 +569,7 @@ def check_C04(tier, seed, replay=None):
                           "AggFloat.v (sum, max, min, count, avg, group, stddev, stdvar, quantile; transcribed from scalar_table.go) on the operand "
                           "stream of the engine's own operator tree vs the engine's result for <agg> [by (non-empty) | without (..)] "
                           "(selector), bit for bit", 40, 400, shards_quick=8, shards_thorough=32)
-    return ref_family_check("C04", tier, seed, [("agg", 4000), ("epoch:agg", 500), ("nans", 800)], [("agg", 80000), ("noties", 20000), ("epoch:agg", 10000), ("nans", 20000)],
+    return ref_family_check("C04", tier, seed, [("agg", 4000), ("epoch:agg", 500), ("nans", 800), ("upper", 600)], [("agg", 80000), ("noties", 20000), ("epoch:agg", 10000), ("nans", 20000), ("upper", 10000)],
                             corr=_corr_multi(corr, corr2, corr3))
 
 
